@@ -54,6 +54,12 @@ type wlPure struct {
 	// ScribbleWarm: the caller writes all over the objects the warm-up calls
 	// returned (models, graphs).
 	ScribbleWarm bool `json:"scribble_warm,omitempty"`
+	// EditInPlace: the model objects the tasks use have a past: the caller first
+	// held a different model in the very same object (same pointer, same number
+	// of type definitions, every type lacking one relation), had it rendered and
+	// both graphs built from it, and then edited the object in place into the
+	// input. A call's result may depend on the value of its argument only.
+	EditInPlace bool `json:"edit_in_place,omitempty"`
 }
 
 // scribbleResults: set while the warm-up history of a run executes.
@@ -184,6 +190,29 @@ func realise(in *pInput) *rInput {
 		r.schema = in.ModSet.Schema
 	}
 	return r
+}
+
+// earlierValueOf returns a new model object holding a different model with the
+// same number of type definitions: every type has lost its last relation (by
+// name) together with the metadata of that relation.
+func earlierValueOf(pm *openfgav1.AuthorizationModel) *openfgav1.AuthorizationModel {
+	obj := proto.Clone(pm).(*openfgav1.AuthorizationModel)
+	for _, td := range obj.GetTypeDefinitions() {
+		last := ""
+		for n := range td.GetRelations() {
+			if n > last {
+				last = n
+			}
+		}
+		if last == "" {
+			continue
+		}
+		delete(td.Relations, last)
+		if md := td.GetMetadata(); md != nil {
+			delete(md.Relations, last)
+		}
+	}
+	return obj
 }
 
 func (r *rInput) untouched() string {
@@ -572,6 +601,22 @@ func (c *pureCtx) check(cfg simrt.Config) ([]mismatch, simrt.Stats, string) {
 			}
 		}
 		scribbleResults = false
+	}
+	if wl.EditInPlace {
+		for _, ri := range rin {
+			if ri.pm == nil {
+				continue
+			}
+			obj := earlierValueOf(ri.pm)
+			past := &rInput{in: ri.in, pm: obj}
+			for _, k := range []string{"plaingraph", "wgraph", "proto2dsl"} {
+				_ = execOp(pOp{Kind: k}, past)
+			}
+			proto.Reset(obj)
+			proto.Merge(obj, ri.pmCopy)
+			ri.pm = obj
+			simrt.CountFault("history.object_edited_in_place")
+		}
 	}
 	if wl.ColdBefore {
 		parser.VerifColdRestart()
@@ -1072,6 +1117,7 @@ func genPureWorkload(r *rng) *wlPure {
 	wl.ColdBefore = r.chance(50)
 	wl.SharedBuilder = r.chance(40)
 	wl.ScribbleWarm = len(wl.Warm) > 0 && r.chance(50)
+	wl.EditInPlace = r.chance(20)
 	return wl
 }
 
